@@ -105,10 +105,15 @@ REQ_SETTINGS = {
     # --lua-path given AND PICO8_LUA_PATH set to another directory: the option wins (README), for nested requires
     # too; the environment variable's directory (abs/libsx, all canaries) is not a root of this build
     'abs_cli_env_other': (ABS_LP, 'cli', 'mod', 'abs/libs/mod.lua'),
+    # a relative pattern whose text after the `?` looks like an absolute path (with the README's `?/init.lua` the
+    # same happens at the file system root): it stays relative to the requiring file whatever `?` stands for - the
+    # empty string included
+    'q_then_abs_text': ('?{TMP}/abs/libsx/ok.lua;?.lua', 'cli', 'ok', 'work/proj/ok.lua'),
 }
 ENV_ALSO = {'abs_cli_env_other': '{TMP}/abs/libsx/?.lua;{TMP}/abs/libsx/?/init.lua;{TMP}/abs/libsx/?'}
 MAIN_LUA = {'qdir': 'work/qu?ry/main.lua', 'qdir_rel': 'work/qu?ry/main.lua'}
-REQ_ORDER = ('default', 'rel_cli', 'relpkg_cli', 'abs_cli', 'rel_env', 'abs_env', 'qdir', 'qdir_rel', 'abs_cli_env_other')
+REQ_ORDER = ('default', 'rel_cli', 'relpkg_cli', 'abs_cli', 'rel_env', 'abs_env', 'qdir', 'qdir_rel', 'abs_cli_env_other',
+             'q_then_abs_text')
 MUTABLE = ['work/proj/main.p8', HP + '/carts/game/main.p8', HP + '/cartsX/main.p8', 'work/proj/main.lua', 'work/qu?ry/main.lua',
            'build/out.p8']
 P8_HEAD = b'pico-8 cartridge // http://www.pico-8.com\nversion 8\n__lua__\n'
@@ -603,13 +608,16 @@ def require_cases(lay, maxseg):
         for nested in (False, True):
             probe = {'mode': 'require', 'setting': setting, 'nested': nested, 'S': ''}
             _f, reqdir, roots = req_geometry(lay, probe)
-            if setting.startswith('qdir') or setting in ENV_ALSO:
+            if setting.startswith('qdir') or setting in ENV_ALSO or setting == 'q_then_abs_text':
                 # (a reduced string space: these settings are about the directory's name / about which of two
                 # configured load paths applies, not about the strings)
                 for S in enum_strings(2):
                     yield dict(probe, S=S)
                 if setting in ENV_ALSO:
                     for S in ('mod', 'pkg', 'init', 'canary', 'ok/init', 'lib/ok'):
+                        yield dict(probe, S=S)
+                if setting == 'q_then_abs_text':
+                    for S in ('', ' ', 'ok', 'lib'):
                         yield dict(probe, S=S)
                 continue
             for S in enum_strings(maxseg):
